@@ -252,7 +252,7 @@ def main():
                 label, ";\n   ".join("(%s, %s, %d%%nat, %s)" % (T(a), T(k), w, T(x)) for a, k, w, x in reads)))
             defs.append("Definition sh_%s : list ((list N) * (list N)) :=\n  [%s]." % (
                 label, ";\n   ".join("(%s, %s)" % (T(k), T(e)) for k, e in shows)))
-        except (Unsupported, OSError, SyntaxError) as e:
+        except Exception as e:  # noqa: BLE001 (fail-closed: whatever goes wrong gives the stub)
             # this function left the fragment: a stub for it alone (the agreement theorem that names it fails)
             sys.stderr.write("extract_layouts: %s: %s\n" % (label, e))
             reason = str(e).replace("*)", "* )").replace("(*", "( *")[:300]
@@ -266,7 +266,7 @@ def main():
             tb = table_of(find(tree, cls, fn), names)
             defs.append("Definition ok_%s : bool := true." % label)
             defs.append("Definition sh_%s : list ((list N) * (list N)) :=\n  [%s]." % (label, ";\n   ".join("(%s, %s)" % (T(k), T(e)) for k, e in tb)))
-        except (Unsupported, OSError, SyntaxError) as e:
+        except Exception as e:  # noqa: BLE001 (fail-closed: whatever goes wrong gives the stub)
             sys.stderr.write("extract_layouts: %s: %s\n" % (label, e))
             defs.append("Definition ok_%s : bool := false." % label)
             defs.append("Definition sh_%s : list ((list N) * (list N)) := []." % label)
